@@ -77,4 +77,37 @@ def complete : TM Unit := modify fun s => { s with completed := true }
 def run (m : TM Unit) (s : TSt) : Except Err Unit × TSt := (ExceptT.run m).run s
 end TM
 
+/-! `io.BytesIO` as the closures of rxsci/framing/length_prefix.py use it, and the closure monad over bytes -/
+structure BIO where
+  data : List Nat
+  pos : Nat
+
+namespace BIO
+def empty : BIO := ⟨[], 0⟩
+/-- `bio.write(x)`: at the cursor, overwriting / extending; the cursor moves past what was written -/
+def write (b : BIO) (x : List Nat) : BIO := ⟨b.data.take b.pos ++ x ++ b.data.drop (b.pos + x.length), b.pos + x.length⟩
+/-- `len(bio.getbuffer())` -/
+def len (b : BIO) : Nat := b.data.length
+/-- `bio.seek(o, io.SEEK_SET)` -/
+def seek (b : BIO) (o : Nat) : BIO := ⟨b.data, o⟩
+/-- `bio.read(n)`: up to `n` bytes from the cursor, which moves past them -/
+def read (b : BIO) (n : Nat) : List Nat × BIO :=
+  ((b.data.drop b.pos).take n, ⟨b.data, b.pos + ((b.data.drop b.pos).take n).length⟩)
+/-- `bio.read()`: everything from the cursor -/
+def readAll (b : BIO) : List Nat × BIO := (b.data.drop b.pos, ⟨b.data, max b.pos b.data.length⟩)
+end BIO
+
+structure BSt where
+  vars : Nat → List Nat
+  out : List (List Nat) := []
+  completed : Bool := false
+
+abbrev BM := ExceptT Err (StateM BSt)
+namespace BM
+def getVar (k : Nat) : BM (List Nat) := do return (← get).vars k
+def setVar (k : Nat) (v : List Nat) : BM Unit := modify fun s => { s with vars := fun j => if j = k then v else s.vars j }
+def emit (v : List Nat) : BM Unit := modify fun s => { s with out := s.out ++ [v] }
+def run {α} (m : BM α) (s : BSt) : Except Err α × BSt := (ExceptT.run m).run s
+end BM
+
 end Rx
